@@ -24,6 +24,7 @@ type Ev struct {
 	N  int           `json:"n,omitempty"`
 
 	Leaders []string `json:"leaders,omitempty"` // instances with IsLeader()==true at this instant
+	LTok    []string `json:"ltok,omitempty"`    // their Token() at the same instant
 	Rec     *RecView `json:"rec,omitempty"`     // live record of the instance's group at this instant
 	Snap    []ISnap  `json:"snap,omitempty"`    // quiescent snapshot
 }
@@ -125,7 +126,8 @@ func (m *recMetrics) SetIsLeader(v float64, _ prometheus.Labels) {
 	in, w := m.in, m.in.w
 	w.mu.Lock()
 	in.gauge = int(v)
-	w.ev(Ev{K: "gauge", I: in.spec.ID, B: v == 1, Leaders: w.leadersNow(), Rec: parseRec(w.store.Live(in.group(), w.now()))})
+	ls, lt := w.leadersNow()
+	w.ev(Ev{K: "gauge", I: in.spec.ID, B: v == 1, Leaders: ls, LTok: lt, Rec: parseRec(w.store.Live(in.group(), w.now()))})
 	w.mu.Unlock()
 }
 func (m *recMetrics) SetConnectionStatus(v float64, _ prometheus.Labels) {
@@ -141,15 +143,15 @@ func (m *recMetrics) ObserveHeartbeatDuration(time.Duration, prometheus.Labels) 
 func (m *recMetrics) ObserveLeaderDuration(time.Duration, prometheus.Labels)    {}
 
 // leadersNow: IsLeader() of every live instance, sampled synchronously (atomic loads).
-func (w *World) leadersNow() []string {
-	var ls []string
+func (w *World) leadersNow() (ls []string, toks []string) {
 	for _, id := range w.order {
 		in := w.insts[id]
 		if in.created && !in.crashed && in.el.IsLeader() {
 			ls = append(ls, id)
+			toks = append(toks, in.el.Token())
 		}
 	}
-	return ls
+	return
 }
 
 // ---------------------------------------------------------------- logger (explanations only)
@@ -234,7 +236,8 @@ func (in *Inst) create() error {
 		in.nProm++
 		t := &Term{Inst: id, Token: token, TStart: w.now(), ctx: ctx}
 		in.terms = append(in.terms, t)
-		w.ev(Ev{K: "promote", I: id, S: token, B: el.IsLeader(), N: len(in.terms), Leaders: w.leadersNow()})
+		ls, lt := w.leadersNow()
+		w.ev(Ev{K: "promote", I: id, S: token, B: el.IsLeader(), N: len(in.terms), Leaders: ls, LTok: lt, Rec: parseRec(w.store.Live(in.group(), w.now()))})
 		w.mu.Unlock()
 		w.signal()
 		if in.spec.NoPromoteBlock {
@@ -249,7 +252,8 @@ func (in *Inst) create() error {
 	el.OnDemote(func() {
 		w.mu.Lock()
 		in.nDem++
-		w.ev(Ev{K: "demote", I: id, B: el.IsLeader(), Leaders: w.leadersNow()})
+		ls, lt := w.leadersNow()
+		w.ev(Ev{K: "demote", I: id, B: el.IsLeader(), Leaders: ls, LTok: lt, Rec: parseRec(w.store.Live(in.group(), w.now()))})
 		w.mu.Unlock()
 		w.signal()
 		if in.spec.DemoteDur > 0 {
